@@ -375,6 +375,18 @@ func C05Body(w *sim.World, in *Info) (vs []V, antecedent bool) {
 	if !in.HasResp || SpecMethod(ex.Spec) == "HEAD" {
 		return nil, false
 	}
+	// a reply whose body stream fails part-way and that is handed on to the
+	// client: what did arrive comes first, then the failure
+	for _, c := range in.FgCalls {
+		if c.Reply == nil || !c.Reply.FailBody || c.Reply.NoBody || in.FromStore || ex.XMsg() != c.Serial {
+			continue
+		}
+		want := c.Body()[:min(c.Reply.FailAt, len(c.Body()))]
+		if !bytes.Equal(ex.Body, want) || ex.BodyErr == "" {
+			vs = append(vs, V{"C05", "failed-body-prefix-lost", "origin-reply" + sigPath(in), fmt.Sprintf("the origin delivered %d bytes of message %s before its body failed; the client received %d bytes (read error %q); %s", len(want), c.Serial, len(ex.Body), ex.BodyErr, ex.Summary())})
+		}
+		return vs, true
+	}
 	if in.Mb != nil && in.Mb.Reply != nil && !in.Mb.Reply.FailBody {
 		antecedent = true
 		want := in.Mb.Body()
